@@ -79,7 +79,7 @@ func (g *GlobalTransactionManager) Commit(ctx context.Context, gtr *GlobalTransa
 	}
 
 	bf := backoff.New(ctx, backoff.Config{
-		MaxRetries: config.CommitRetryCount,
+		MaxRetries: secondPhaseAttempts(config.CommitRetryCount),
 		MinBackoff: 100 * time.Millisecond,
 		MaxBackoff: 200 * time.Millisecond,
 	})
@@ -120,7 +120,7 @@ func (g *GlobalTransactionManager) Rollback(ctx context.Context, gtr *GlobalTran
 	}
 
 	bf := backoff.New(ctx, backoff.Config{
-		MaxRetries: config.RollbackRetryCount,
+		MaxRetries: secondPhaseAttempts(config.RollbackRetryCount),
 		MinBackoff: 100 * time.Millisecond,
 		MaxBackoff: 200 * time.Millisecond,
 	})
@@ -149,6 +149,15 @@ func (g *GlobalTransactionManager) Rollback(ctx context.Context, gtr *GlobalTran
 	gtr.TxStatus = res.(message.GlobalRollbackResponse).GlobalStatus
 
 	return nil
+}
+
+// secondPhaseAttempts is how often a second-phase request is sent at most: the configured count, and once
+// when that count is zero or negative (the backoff would take zero for "retry for ever").
+func secondPhaseAttempts(configured int) int {
+	if configured < 1 {
+		return 1
+	}
+	return configured
 }
 
 // secondPhaseError builds the error of a second phase that got no acknowledgement: the last
